@@ -44,29 +44,47 @@ pub open spec fn equal_case(rword: &WordView, qword: &WordView) -> bool {
 }
 pub open spec fn good(best: Option<(WordMatch, WordMatch)>) -> bool { best matches Some(p) && is_h(p.0.typos) && hv(p.0.typos) == 0 }
 pub open spec fn good_full(best: Option<(WordMatch, WordMatch)>, n: int) -> bool { good(best) && (best matches Some(p) && p.0.subslice.1 == n && p.1.subslice.1 == n) }
-// ---- soundness contract of word_match (C05 span length, C09 span inside the word and non-empty, C01 provenance)
-pub open spec fn wm_ok(res: Option<(WordMatch, WordMatch)>, rword: &WordView, qword: &WordView) -> bool {
+// ---- soundness contract of word_match, one predicate per clause so that a failed clause names the property it serves
+// spans: the two matches are for these two words, start at the word start, are non-empty and end inside the word
+pub open spec fn wm_shape(res: Option<(WordMatch, WordMatch)>, rword: &WordView, qword: &WordView) -> bool {
+    res matches Some(p) ==> p.0.wf_for(rword) && p.1.wf_for(qword) && p.1.subslice.1 >= qword.stem
+}
+// the highlighted record prefix is at most one character longer (or shorter) than the matched query prefix
+pub open spec fn wm_len(res: Option<(WordMatch, WordMatch)>) -> bool {
+    res matches Some(p) ==> p.0.subslice.1 <= p.1.subslice.1 + 1 && p.1.subslice.1 <= p.0.subslice.1 + 1
+}
+// the typo count is the weighted Damerau-Levenshtein distance of the two matched prefixes and passes the DL gate
+pub open spec fn wm_typos(res: Option<(WordMatch, WordMatch)>, rword: &WordView, qword: &WordView) -> bool {
     res matches Some(p) ==> {
         let rs = p.0.subslice.1 as int; let qs = p.1.subslice.1 as int;
-        &&& p.0.wf_for(rword) && p.1.wf_for(qword)
-        &&& qs >= qword.stem
-        &&& rs <= qs + 1 && qs <= rs + 1
         &&& typos_ok(p.0.typos) && p.1.typos == p.0.typos
         &&& hv(p.0.typos) == dcell(qword.vchars(), qword.vclasses(), rword.vchars(), rword.vclasses(), qs, rs)
         &&& 100 * hv(p.0.typos) <= 43 * imax(qs, rs)
-        // provenance clause: the matched prefix is at least twice the rounded-up typo count (no underflow in the char score)
-        &&& 2 * ((hv(p.0.typos) + 1) / 2) <= rs
-        &&& p.0.fin == (qword.fin || rword.vlen() == rs) && p.1.fin == p.0.fin
     }
+}
+// provenance clause: the matched prefix is at least twice the rounded-up typo count (no underflow in the char score)
+pub open spec fn wm_prov(res: Option<(WordMatch, WordMatch)>) -> bool {
+    res matches Some(p) ==> 2 * ((hv(p.0.typos) + 1) / 2) <= p.0.subslice.1
+}
+pub open spec fn wm_fin(res: Option<(WordMatch, WordMatch)>, rword: &WordView, qword: &WordView) -> bool {
+    res matches Some(p) ==> p.0.fin == (qword.fin || rword.vlen() == p.0.subslice.1) && p.1.fin == p.0.fin
+}
+pub open spec fn wm_ok(res: Option<(WordMatch, WordMatch)>, rword: &WordView, qword: &WordView) -> bool {
+    wm_shape(res, rword, qword) && wm_len(res) && wm_typos(res, rword, qword) && wm_prov(res) && wm_fin(res, rword, qword)
 }
 // @item rust/core/src/matching/word.rs :: fn word_match
 pub fn word_match(rword: &WordView, qword: &WordView, tls: &mut Tls) -> (ret: Option<(WordMatch, WordMatch)>)
     requires old(tls).DAMLEV.wf(), rword.wfs(), qword.wfs(), rword.small(), qword.small(),
-    ensures final(tls).DAMLEV.wf(), wm_ok(ret, rword, qword),
+    ensures final(tls).DAMLEV.wf(),
+        wm_shape(ret, rword, qword), // [C09 C02 C05 C14 C01]
+        wm_len(ret), // [C05]
+        wm_typos(ret, rword, qword), // [C16 C08 C04 C01]
+        wm_prov(ret), // [C01 C14]
+        wm_fin(ret, rword, qword), // [C08 C13 C12]
         // C03 (word level): an exact prefix that passes the Jaccard pre-filter is matched with zero typos
-        prefix_case(rword, qword) && jac_passes(rword, qword) ==> good(ret),
+        prefix_case(rword, qword) && jac_passes(rword, qword) ==> good(ret), // [C03]
         // C13 (word level): an identical word is matched completely, with zero typos
-        equal_case(rword, qword) && jac_passes(rword, qword) ==> good_full(ret, rword.vlen()),
+        equal_case(rword, qword) && jac_passes(rword, qword) ==> good_full(ret, rword.vlen()), // [C13 C08]
 {
     proof { f64_obeys(); }
     if qword.is_empty() || rword.is_empty() {
@@ -93,11 +111,16 @@ pub fn word_match(rword: &WordView, qword: &WordView, tls: &mut Tls) -> (ret: Op
             let range = (left..right).rev();
             let mut __rslice0 = right;
             while __rslice0 > left
-                invariant left <= __rslice0 <= right, right == imax(qw.len() as int, rw.len() as int) + 1, wm_ok(best_match, rword, qword),
+                invariant left <= __rslice0 <= right, right == imax(qw.len() as int, rw.len() as int) + 1,
+                    wm_shape(best_match, rword, qword), // [C09 C02 C05 C14 C01]
+                    wm_len(best_match), // [C05]
+                    wm_typos(best_match, rword, qword), // [C16 C08 C04 C01]
+                    wm_prov(best_match), // [C01 C14]
+                    wm_fin(best_match, rword, qword), // [C08 C13 C12]
                     left == (if qword.fin { imax(qword.stem as int, rword.stem as int) } else { qword.stem as int }) - 1,
-                    prefix_case(rword, qword) && __rslice0 <= qw.len() ==> good(best_match),
-                    equal_case(rword, qword) && __rslice0 <= qw.len() ==> good_full(best_match, qw.len() as int),
-                    equal_case(rword, qword) && __rslice0 > qw.len() ==> best_match is None,
+                    prefix_case(rword, qword) && __rslice0 <= qw.len() ==> good(best_match), // [C03]
+                    equal_case(rword, qword) && __rslice0 <= qw.len() ==> good_full(best_match, qw.len() as int), // [C13 C08]
+                    equal_case(rword, qword) && __rslice0 > qw.len() ==> best_match is None, // [C13 C08]
                     dists.full_wf(), dists.size >= qw.len() + 2, dists.size >= rw.len() + 2, dists.rows_ok(qw, qk, rw, rk, qw.len() as int),
                     rword.wfs(), qword.wfs(), rword.small(), qword.small(), qw == qword.vchars(), qk == qword.vclasses(), rw == rword.vchars(), rk == rword.vclasses(),
                     qw.len() == qword.vlen(), rw.len() == rword.vlen(),
@@ -107,19 +130,24 @@ pub fn word_match(rword: &WordView, qword: &WordView, tls: &mut Tls) -> (ret: Op
                 let rslice = __rslice0;
                 let mut __qslice1 = right;
                 while __qslice1 > left
-                    invariant left <= __qslice1 <= right, right == imax(qw.len() as int, rw.len() as int) + 1, rslice < right, left <= rslice, wm_ok(best_match, rword, qword),
+                    invariant left <= __qslice1 <= right, right == imax(qw.len() as int, rw.len() as int) + 1, rslice < right, left <= rslice,
+                        wm_shape(best_match, rword, qword), // [C09 C02 C05 C14 C01]
+                        wm_len(best_match), // [C05]
+                        wm_typos(best_match, rword, qword), // [C16 C08 C04 C01]
+                        wm_prov(best_match), // [C01 C14]
+                        wm_fin(best_match, rword, qword), // [C08 C13 C12]
                         left == (if qword.fin { imax(qword.stem as int, rword.stem as int) } else { qword.stem as int }) - 1,
-                        prefix_case(rword, qword) && rslice < qw.len() ==> good(best_match),
-                        prefix_case(rword, qword) && rslice == qw.len() && __qslice1 <= qw.len() ==> good(best_match),
-                        equal_case(rword, qword) && rslice < qw.len() ==> good_full(best_match, qw.len() as int),
-                        equal_case(rword, qword) && rslice == qw.len() && __qslice1 <= qw.len() ==> good_full(best_match, qw.len() as int),
-                        equal_case(rword, qword) && rslice == qw.len() && __qslice1 > qw.len() ==> best_match is None,
-                        equal_case(rword, qword) && rslice > qw.len() ==> best_match is None,
+                        prefix_case(rword, qword) && rslice < qw.len() ==> good(best_match), // [C03]
+                        prefix_case(rword, qword) && rslice == qw.len() && __qslice1 <= qw.len() ==> good(best_match), // [C03]
+                        equal_case(rword, qword) && rslice < qw.len() ==> good_full(best_match, qw.len() as int), // [C13 C08]
+                        equal_case(rword, qword) && rslice == qw.len() && __qslice1 <= qw.len() ==> good_full(best_match, qw.len() as int), // [C13 C08]
+                        equal_case(rword, qword) && rslice == qw.len() && __qslice1 > qw.len() ==> best_match is None, // [C13 C08]
+                        equal_case(rword, qword) && rslice > qw.len() ==> best_match is None, // [C13 C08]
                         dists.full_wf(), dists.size >= qw.len() + 2, dists.size >= rw.len() + 2, dists.rows_ok(qw, qk, rw, rk, qw.len() as int),
                         rword.wfs(), qword.wfs(), rword.small(), qword.small(), qw == qword.vchars(), qk == qword.vclasses(), rw == rword.vchars(), rk == rword.vclasses(),
                         qw.len() == qword.vlen(), rw.len() == rword.vlen(),
-                    ensures prefix_case(rword, qword) && rslice <= qw.len() ==> good(best_match),
-                        equal_case(rword, qword) && rslice <= qw.len() ==> good_full(best_match, qw.len() as int),
+                    ensures prefix_case(rword, qword) && rslice <= qw.len() ==> good(best_match), // [C03]
+                        equal_case(rword, qword) && rslice <= qw.len() ==> good_full(best_match, qw.len() as int), // [C13 C08]
                     decreases __qslice1,
                 {
                     __qslice1 -= 1;
@@ -189,7 +217,8 @@ pub fn word_match(rword: &WordView, qword: &WordView, tls: &mut Tls) -> (ret: Op
 // @item rust/core/src/matching/word.rs :: fn length_check
 pub fn length_check(rword: &WordView, qword: &WordView) -> (ret: bool)
     requires rword.wfs(), qword.wfs(), rword.small(), qword.small(),
-    ensures prefix_case(rword, qword) ==> ret, equal_case(rword, qword) ==> ret,
+    ensures prefix_case(rword, qword) ==> ret, // [C03]
+        equal_case(rword, qword) ==> ret, // [C13 C08]
 {
     proof { f64_obeys(); }
     let qlen = qword.len();
@@ -206,11 +235,14 @@ pub fn length_check(rword: &WordView, qword: &WordView) -> (ret: bool)
 // @item rust/core/src/matching/word.rs :: fn jaccard_check
 pub fn jaccard_check(rword: &WordView, qword: &WordView, tls: &mut Tls) -> (ret: bool)
     requires rword.wfs(), qword.wfs(),
-    ensures final(tls).DAMLEV == old(tls).DAMLEV, jac_passes(rword, qword) ==> ret,
+    ensures final(tls).DAMLEV == old(tls).DAMLEV,
+        !qword.fin && jac_passes(rword, qword) ==> ret, // [C03 C05]
+        qword.fin && jac_passes(rword, qword) ==> ret, // [C13 C08]
 {
     proof { f64_obeys(); }
     let rslice = if qword.fin { rword.chars() } else { &rword.chars()[..vmin(qword.len() + 1, rword.len())] };
-    proof { assert(rslice@ =~= jac_arg(rword, qword)); }
+    proof { if !qword.fin { assert(rslice@ =~= jac_arg(rword, qword)); } } // [C03 C05]
+    proof { if qword.fin { assert(rslice@ =~= jac_arg(rword, qword)); } } // [C13 C08]
     let dist = {
         let j = &mut tls.JACCARD;
         j.rel_dist(rslice, qword.chars())
